@@ -270,12 +270,25 @@ var c12Grafts = map[string][]struct {
 		{jpath{"spec", "defaultBackend"}, `{"resource":{"kind":"Bucket","name":"b"}}`},
 		{jpath{"spec", "defaultBackend"}, `{}`},
 		{jpath{"spec", "defaultBackend"}, `{"service":{"name":"svc"}}`},
+		{jpath{"spec", "defaultBackend"}, `{"service":{"name":"svc","port":{}}}`},
+		{jpath{"spec", "defaultBackend"}, `{"service":{"name":"svc","port":{"name":"http","number":80}}}`},
+		{jpath{"spec"}, `{"rules":[{"http":{"paths":[{"backend":{"service":{"name":"","port":{"number":0}}}},{"backend":{"service":null}}]}},{}]}`},
+		{jpath{"spec"}, `{}`},
+		{jpath{"metadata", "namespace"}, `"ingress-controller-ns"`},
 	},
 	"Route": {
 		{jpath{"spec", "port"}, `{}`},
 		{jpath{"spec", "port"}, `null`},
 		{jpath{"spec", "to"}, `{}`},
 		{jpath{"spec", "alternateBackends"}, `[{},{"kind":"Service"}]`},
+		{jpath{"spec", "to"}, `{"kind":"Bucket","name":"b"}`},
+		{jpath{"spec"}, `{"to":{"kind":"Bucket","name":"b"},"alternateBackends":[{"kind":"Service","name":"svc"},{"name":"svc2","weight":null}]}`},
+		{jpath{"spec"}, `{"to":{"kind":"","name":""},"alternateBackends":[{"kind":"Bucket","name":"b"},{"kind":"Service","name":""}],"port":{"targetPort":""}}`},
+		{jpath{"spec"}, `{"alternateBackends":[{"kind":"Service","name":"svc"}]}`},
+		{jpath{"spec"}, `{}`},
+		{jpath{"spec", "port"}, `{"targetPort":"no-such-port"}`},
+		{jpath{"spec", "port"}, `{"targetPort":0}`},
+		{jpath{"metadata", "namespace"}, `"ingress-controller-ns"`},
 	},
 	"ReplicationController": {{jpath{"spec", "template"}, `null`}, {jpath{"spec"}, `{"replicas":2}`}},
 	"Deployment":            {{jpath{"spec", "template"}, `{}`}, {jpath{"spec"}, `{}`}, {jpath{"spec", "replicas"}, `null`}},
